@@ -78,6 +78,11 @@ CLAIMED = {
    "DESIGN.md §4 C04",
    "Trusted: anchors by exported spec-level names (ExternType*, ModuleInstance fields), SSA dominance on syntactic paths.",
    "static: SSA value identity, consult rules on typed syntax, index-space discipline, sibling-arm comparison"),
+ "C06": ("other",
+   "Static decision of structural necessary conditions for every failing call: every ExitCode constant has an arm in the Go-side loop and non-resuming arms panic with a wasmruntime error; the exit code is reset before every re-entry into native code and on every path of the deferred recover that leaves with an error; the interpreter's recover path truncates value and frame stacks; panic values are of documented kinds and both engines raise the same set of wasmruntime errors; stack ceilings are compared before growth; closed-word transitions keep the exit code in the high half (abstract bit-half evaluation on SSA). Native unwinding, stack-pointer adjustment and general later-call behaviour are not decided.",
+   "DESIGN.md §4 C06",
+   "Trusted: anchors by type (wazevoapi.ExitCode, wasmruntime vars, ModuleInstance.Closed), callee name prefix afterGoFunctionCallEntrypoint as the only re-entry.",
+   "static: exhaustiveness over typed constants, must-precede on statement lists, SSA bit-half abstract evaluation, sibling set agreement"),
 }
 
 NOT_APPLICABLE = {
